@@ -1,0 +1,19 @@
+//go:build verif
+
+package sdk
+
+// Contracts for the compiler driver (property C04: every failure of a stage ends in a non-nil error, which main turns
+// into a non-zero exit status). Comment-only file, read by /verif/engine (govc).
+
+//@ func InvokeThriftgo(SDKPlugins []plugin.SDKPlugin, args ...string) (err error)
+//@   requires forall i int :: 0 <= i && i < len(SDKPlugins) ==> SDKPlugins[i] != nil
+//@   modifies *
+//@   ensures ncalls("parser.ParseFile") >= 1 && callret("parser.ParseFile", 1) != nil ==> err != nil
+//@   ensures ncalls("parser.CircleDetect") >= 1 && len(callret("parser.CircleDetect", 0)) > 0 ==> err != nil
+//@   ensures ncalls("checker.CheckAll") >= 1 && callret("checker.CheckAll", 1) != nil ==> err != nil
+//@   ensures ncalls("semantic.ResolveSymbols") >= 1 && callret("semantic.ResolveSymbols", 0) != nil ==> err != nil
+//@   ensures ncalls("a.UsedPlugins") >= 1 && callret("a.UsedPlugins", 1) != nil ==> err != nil
+//@   ensures ncalls("a.Targets") >= 1 && callret("a.Targets", 1) != nil ==> err != nil
+//@   ensures ncalls("a.Targets") >= 1 && callret("a.Targets", 1) == nil && len(callret("a.Targets", 0)) == 0 ==> err != nil
+//@   ensures ncalls("g.Persist") >= 1 && callret("g.Persist", 0) != nil ==> err != nil
+//@   loop 1 invariant ncalls("g.Persist") >= 1 ==> callret("g.Persist", 0) == nil
